@@ -73,7 +73,15 @@ pub struct RunPlan {
     /// products are recorded for the first `n % (len+1)` of the path arguments only (None: the same list as the materials)
     #[serde(default)]
     pub product_args: Option<u8>,
+    /// instead of exiting, the command kills itself with this signal (index into KILL, TERM, ABRT, SEGV, HUP)
+    #[serde(default)]
+    pub kill: Option<u8>,
+    /// the command additionally writes this many KiB to its standard error and then to its standard output
+    #[serde(default)]
+    pub bulk_kib: Option<(u16, u16)>,
 }
+
+const SIGNALS: &[&str] = &["KILL", "TERM", "ABRT", "SEGV", "HUP"];
 
 #[derive(Clone, Debug, Serialize, Deserialize)]
 pub struct Spec {
@@ -404,7 +412,15 @@ fn run_script(plan: &RunPlan) -> (Vec<String>, String, String) {
             ),
         }
     }
-    s.push_str(&format!("; exit {}", plan.exit));
+    if let Some((e, o)) = plan.bulk_kib {
+        s.push_str(&format!("; head -c {} /dev/zero | tr '\\0' 'e' 1>&2; head -c {} /dev/zero | tr '\\0' 'o'", e as usize * 1024, o as usize * 1024));
+        err.push_str(&"e".repeat(e as usize * 1024));
+        out.push_str(&"o".repeat(o as usize * 1024));
+    }
+    match plan.kill {
+        Some(k) => s.push_str(&format!("; kill -{} $$; sleep 5", SIGNALS[k as usize % SIGNALS.len()])),
+        None => s.push_str(&format!("; exit {}", plan.exit)),
+    }
     (vec!["sh".into(), "-c".into(), s], out, err)
 }
 
@@ -449,7 +465,7 @@ impl Property for C18 {
          dangling), path argument lists (root, '.', './t', sub-directories, single files, overlapping, non-normalised 't/./sub//'), \
          strip-prefix lists (none, matching, overlapping prefixes of different length, non-matching, empty), hash algorithms {default, \
          sha256, sha512, both, unknown}; for in_toto_run an operation list (create, append, delete, replace a file by other bytes of the same length keeping its modification time, echo to stdout/stderr, exit k) compiled to \
-         one sh -c command; one in_toto_run in five is record-only (empty command), and in a third of them the products are recorded for a prefix of the path arguments only; for plain recording optionally a second recording of the same arguments in the same process after such an operation list changed the tree. Oracle: an independent walk (follows symlinks) with the harness' own SHA-256/512: every file reachable without entering a directory \
+         one sh -c command; commands may end by killing themselves with SIGKILL/TERM/ABRT/SEGV/HUP (a link then must not report exit status 0) and may write 0-256 KiB to stderr and then 0-200 KiB to stdout; one in_toto_run in five is record-only (empty command), and in a third of them the products are recorded for a prefix of the path arguments only; for plain recording optionally a second recording of the same arguments in the same process after such an operation list changed the tree. Oracle: an independent walk (follows symlinks) with the harness' own SHA-256/512: every file reachable without entering a directory \
          twice on one descent path must be recorded with its true digest, and any further entry must be a cyclic duplicate (reachable when a \
          directory may be entered twice) with a true digest - the statement does not say where a cyclic descent stops; two different files under one key => Err; unknown \
          algorithm => Err; in_toto_run: materials = reference snapshot before, products = snapshot after, byproducts = constructed \
@@ -499,8 +515,8 @@ impl Property for C18 {
             proptest::collection::vec(arg, 1..4),
             proptest::option::weighted(0.5, proptest::collection::vec(any::<u8>(), 0..3)),
             prop_oneof![3 => Just(Algs::Default), 2 => Just(Algs::Sha256), 1 => Just(Algs::Sha512), 2 => Just(Algs::Both), 1 => Just(Algs::Unknown)],
-            proptest::option::weighted(0.3, (proptest::collection::vec(op.clone(), 0..4), prop_oneof![3 => Just(0u8), 1 => any::<u8>()], any::<bool>(), prop_oneof![4 => Just(false), 1 => Just(true)], proptest::option::weighted(0.3, any::<u8>())).prop_map(|(ops, exit, run_dir_dot, no_command, product_args)| RunPlan { ops, exit, run_dir_dot, no_command, product_args })),
-            proptest::option::weighted(0.3, proptest::collection::vec(op, 1..3).prop_map(|ops| RunPlan { ops, exit: 0, run_dir_dot: false, no_command: false, product_args: None })),
+            proptest::option::weighted(0.3, (proptest::collection::vec(op.clone(), 0..4), prop_oneof![3 => Just(0u8), 1 => any::<u8>()], any::<bool>(), prop_oneof![4 => Just(false), 1 => Just(true)], proptest::option::weighted(0.3, any::<u8>()), proptest::option::weighted(0.15, 0u8..5), proptest::option::weighted(0.15, (prop_oneof![Just(0u16), Just(1), Just(63), Just(64), Just(65), Just(100), Just(256)], prop_oneof![Just(0u16), Just(1), Just(64), Just(65), Just(200)]))).prop_map(|(ops, exit, run_dir_dot, no_command, product_args, kill, bulk_kib)| RunPlan { ops, exit, run_dir_dot, no_command, product_args, kill, bulk_kib })),
+            proptest::option::weighted(0.3, proptest::collection::vec(op, 1..3).prop_map(|ops| RunPlan { ops, exit: 0, run_dir_dot: false, no_command: false, product_args: None, kill: None, bulk_kib: None })),
         )
             .prop_map(|(tree, args, lstrip, algs, run, again)| Spec { tree, args, lstrip, algs, run, again })
             .boxed();
@@ -636,8 +652,26 @@ impl Property for C18 {
                 if changed {
                     o.class("run-changed-tree");
                 }
+                let killed = plan.kill.is_some() && !plan.no_command;
+                if killed {
+                    o.class("command-killed-by-signal");
+                }
+                if plan.bulk_kib.is_some() && !plan.no_command {
+                    o.class("command-with-bulk-output");
+                }
                 match lib {
                     Err(pi) => o.fail(format!("C18/run/panic/{}", pi.message_class()), format!("{}:{} {}", pi.file, pi.line, pi.message), "a link or an error"),
+                    Ok(Err(_)) if killed => o.class("lib:err"),
+                    Ok(Ok(block)) if killed => {
+                        // a command that was killed has no exit status; a link that reports success is false
+                        o.class("lib:ok");
+                        if let in_toto::models::MetadataWrapper::Link(l) = &block.metadata {
+                            let bp = ByprodSpec::from_lib(&l.byproducts);
+                            if bp.return_value == Some(0) {
+                                o.fail("C18/run/killed-command-recorded-as-success", format!("return-value {:?} for a command killed by SIG{}", bp.return_value, SIGNALS[plan.kill.unwrap_or(0) as usize % SIGNALS.len()]), "an error, or byproducts that do not claim exit status 0");
+                            }
+                        }
+                    }
                     Ok(Err(e)) => {
                         o.class("lib:err");
                         if let (Ok(b), Ok(a)) = (&before.strict, &after.strict) {
